@@ -147,7 +147,8 @@ def gen_netlist(rnd, big=False):
             used.add(tuple(r))
     loose = [('n', a, b) for a, b, eq in outs_of if ('n', a, b) not in used and not eq]
     rnd.shuffle(loose)
-    n_out = rnd.randrange(1, 4)
+    # blocks without any output port are legal too (free-running accumulators, sinks): the last column is then an instance column
+    n_out = 0 if rnd.random() < 0.15 else rnd.randrange(1, 4)
     outs = [list(x) for x in loose[:n_out]]
     while len(outs) < n_out:
         c = [('i', k) for k in range(n_in)] + [('n', a, b) for a, b, eq in outs_of if not eq]
